@@ -123,6 +123,7 @@ type Result struct {
 	TotalSteps   int64
 	EngineErr    string
 	SharedWrites map[string]int
+	DomDecided   int // branch decisions settled by byte-domain enumeration
 }
 
 var defaultInitSkip = []string{
@@ -354,6 +355,7 @@ func (ex *explorer) runPath(in *interpreter, sol *solver, item workItem) {
 	ps := &pathState{
 		i: in, tt: newTermTable(), sol: sol, prefix: item.prefix, budget: ex.hc.Budget,
 		covers: map[string]bool{}, harness: ex.hc.Func, params: ex.hc.Params,
+		dom: map[*Term]*byteDom{}, entangled: map[*Term]bool{},
 	}
 	if len(item.prefix) == 0 {
 		ps.model = map[string]uint64{}
@@ -440,6 +442,7 @@ func (ex *explorer) runPath(in *interpreter, sol *solver, item workItem) {
 	ex.res.Discharged += ps.discharged
 	ex.res.Assumes += ps.assumes
 	ex.res.UnknownQueries += ps.unknowns
+	ex.res.DomDecided += ps.domDecided
 	ex.res.TotalSteps += ps.steps
 	if ps.steps > ex.res.MaxSteps {
 		ex.res.MaxSteps = ps.steps
